@@ -31,6 +31,54 @@ def cfg_fn(r, i):
     return "\n".join(lines) + "\n", "iwt%d" % iwt
 
 
+PP_BLOCKS = [
+    "#define V%d(x) \\\n        do { \\\n                (x)++; \\\n        } while (0)",
+    "#define W%d(a, b) \\\n\t((a) + \\\n\t \t(b))",
+    "#if defined(A%d)\n#  define K 1\n# if B\n  #   pragma pack(1)\n# else\n#define K2 (1 + \\\n   2)\n# endif\n#endif",
+    "#ifdef D%d\n\t#include <stdio.h>\n  \t#define E(x) x\n#endif",
+    "#pragma region r%d\n#pragma endregion",
+]
+
+
+def pp_decorate(r, data):
+    """preprocessor lines between the lines of a generated program: multi-line macros whose continuation lines start beyond the
+    first tab stop, nested conditionals (indented by pp_indent), and #if ... #endif wrapped around existing lines"""
+    ls = data.decode("latin1").split("\n")
+    ok = [k for k in range(1, len(ls)) if not ls[k - 1].rstrip().endswith("\\")]
+    ins = {}
+    for n in range(r.randint(2, 5)):
+        if ok:
+            ins.setdefault(r.choice(ok), []).append(r.choice(PP_BLOCKS) % n)
+    if len(ok) > 4 and r.random() < 0.7:
+        a, b = sorted(r.sample(ok, 2))
+        ins.setdefault(a, []).append("#if WRAP")
+        ins.setdefault(b, []).insert(0, "#endif")
+    out = []
+    for k, l in enumerate(ls):
+        out.extend(ins.get(k, []))
+        out.append(l)
+    return "\n".join(out).encode("latin1")
+
+
+def pp_cfg_fn(r, i):
+    cfg, tag = cfg_fn(r, i)
+    lines = ["pp_indent_with_tabs=%d" % r.choice([-1, 0, 0, 1, 2])]
+    if r.random() < 0.7:
+        lines.append("pp_indent=%s\npp_indent_count=%d" % (r.choice(["add", "force", "remove"]), r.choice([1, 2, 4, 8])))
+    for name, vals in (("pp_indent_at_level", ["true", "false"]), ("pp_indent_at_level0", ["true", "false"]), ("pp_define_at_level", ["true", "false"]),
+                       ("pp_indent_if", ["0", "1", "4"]), ("pp_indent_brace", ["-1", "0", "1"]), ("pp_indent_in_guard", ["true", "false"]),
+                       ("pp_if_indent_code", ["true", "false"]), ("pp_multiline_define_body_indent", ["8", "2", "-4", "16"]), ("pp_ignore_define_body", ["true", "false"])):
+        if r.random() < 0.3:
+            lines.append("%s=%s" % (name, r.choice(vals)))
+    if r.random() < 0.4:
+        lines.append("pp_space_after=%s\npp_space_count=%d" % (r.choice(["add", "force", "remove"]), r.choice([0, 1, 3])))
+    if r.random() < 0.5:            # the combination where the two policies differ most: tabs for code, blanks for directives
+        cfg = cfg.replace("indent_with_tabs=%s" % cfg.split("\n")[0].split("=")[1], "indent_with_tabs=2", 1)
+        lines[0] = "pp_indent_with_tabs=0"
+    cfg = "\n".join(l for l in cfg.split("\n") if not l.startswith("pp_indent_with_tabs")) + "\n".join(lines) + "\n"
+    return cfg, tag + "pp"
+
+
 def oracle(R, findings):
     att = rc.attributed(R)
     newline = [int(x, 16) for x in R.hdr.get("nl", "a").split(",")]
@@ -61,7 +109,7 @@ def oracle(R, findings):
         which = ppiwt if first[3] else iwt
         s = "".join(chr(c[0]) for c in lead)
         if which == 0 and "\t" in s:
-            findings.append(("lead-tab|%s" % first[1], "indent_with_tabs=0 (pp: %d) but the indentation of output line %d contains a tab: %r" % (ppiwt, n + 1, s)))
+            findings.append(("lead-tab|%s" % first[1], "%s=0 but the indentation of output line %d contains a tab: %r" % ("pp_indent_with_tabs (effective)" if first[3] else "indent_with_tabs", n + 1, s)))
         if which in (1, 2) and " \t" in s:
             findings.append(("space-tab|%s" % first[1], "indent_with_tabs=%d but a space precedes a tab in the indentation of output line %d: %r" % (which, n + 1, s)))
     # end of file policy
@@ -96,6 +144,11 @@ def run(rep, build, tier, seed):
         return rep.finish(common.proof_status("C17", build))
     nc, ng = (60, 60) if tier == "quick" else (2033, 1500)
     cases = rc.corpus_cases(r, nc) + rc.generated_cases(r, ng, cfg_fn, dict(indent="random", blank_max=3, tabs=True, trailing=True, comments=True))
+    ppc = rc.generated_cases(r, ng // 3, pp_cfg_fn, dict(indent="random", blank_max=2, tabs=True, trailing=True, comments=True))
+    for c in ppc:
+        c.data = pp_decorate(r, c.data)
+        c.label = c.label.replace("gen:", "genpp:")
+    cases += ppc
     corr = rc.explore(rep, cases, oracle, tier, "render")
     rep.sample({"generated_config_example": cases[-1].cfg_text, "input_head": cases[-1].data[:120].decode("latin1")})
     return rc.finish(rep, build, "C17", corr, "correspondence Model/Render.v <-> output.cpp (emitted code points)",
